@@ -433,7 +433,10 @@ def fmt8(ctx: Ctx) -> None:
             if not e.startswith(("lines.append(", "lines.extend(", "lines +=")):
                 continue
             if "as_stdlib_summary(" in e:
-                seq.append("SUMMARY" if "as_stdlib_summary(show_contexts=show_contexts).format()" in e else "SUMMARY?:" + e[:60])
+                m_ = re.search(r"as_stdlib_summary\(([^()]*)\)\.format\(\)", e)
+                kws_ = dict(x.split("=", 1) for x in (m_.group(1).split(", ") if m_ and m_.group(1) else []) if "=" in x) if m_ else None
+                good = kws_ is not None and kws_.get("show_contexts") == "show_contexts" and all(k_ == v_ for k_, v_ in kws_.items())
+                seq.append("SUMMARY" if good else "SUMMARY?:" + e[:60])
             elif "self.leaf" in e:
                 seq.append("LEAF")
             elif "_format_error" in e or "Error while extracting" in e or "self.error" in e:
@@ -585,8 +588,26 @@ def cont7(ctx: Ctx) -> None:
             else:
                 ctx.R.undecided("CONT-7", "cannot see where the result of the trickery / referents analysis goes")
     gs = [(norm(g), pol) for g, pol in guards_of(mod, c, fn)]
+    # an optional per-call override whose default (None) defers to _check_trickery_available():  if p is None: p = _check...();  if p:
+    if len(gs) == 1 and gs[0][1] and gs[0][0] in [a.arg for a in fn.args.args + fn.args.kwonlyargs]:
+        pn = gs[0][0]
+        dflt = {a.arg: d for a, d in zip(fn.args.kwonlyargs, fn.args.kw_defaults)}
+        dflt.update({a.arg: d for a, d in zip(fn.args.args[::-1], fn.args.defaults[::-1])})
+        fill = [s_ for s_ in fn.body if isinstance(s_, ast.If) and norm(s_.test) == f"{pn} is None" and len(s_.body) == 1 and norm(s_.body[0]) == f"{pn} = _check_trickery_available()" and not s_.orelse]
+        if isinstance(dflt.get(pn), ast.Constant) and dflt[pn].value is None and len(fill) == 1 and fill[0].lineno < _stmt(mod, c).lineno:
+            gs = [("_check_trickery_available()", True)]
+            for x_ in calls_in(fn, True):
+                pass
+            ctx.R.note(f"CONT-7: optional per-call override `{pn}` (default None defers to the global mode)")
+            fn = fn  # the else-branch test below uses the same parameter
+            _override = pn
+        else:
+            _override = None
+    else:
+        _override = None
     if gs == [("_check_trickery_available()", True)]:
-        other = [x for x in calls_in(fn, True) if norm(x.func) == "_contexts_active_by_referents" and ("_check_trickery_available()", False) in [(norm(g), pol) for g, pol in guards_of(mod, x, fn)]]
+        other = [x for x in calls_in(fn, True) if norm(x.func) == "_contexts_active_by_referents" and (("_check_trickery_available()", False) in [(norm(g), pol) for g, pol in guards_of(mod, x, fn)]
+                                                                                                        or (_override is not None and (_override, False) in [(norm(g), pol) for g, pol in guards_of(mod, x, fn)]))]
         if other and [norm(a) for a in other[0].args[:2]] == ["frame", "origin"]:
             ctx.R.ok("CONT-7", "trickery iff _check_trickery_available(), else referents(frame, origin)")
         else:
@@ -911,8 +932,9 @@ def fmt12(ctx: Ctx) -> None:
     for q, w in want.items():
         f2 = mod.fn(q)
         d = {a.arg: norm(v) for a, v in zip(f2.args.kwonlyargs, f2.args.kw_defaults) if v is not None}
-        if d == w:
-            ctx.R.ok("FMT-12", f"{q}: documented defaults {w}")
+        extra_d = {k_: v_ for k_, v_ in d.items() if k_ not in w}
+        if {k_: v_ for k_, v_ in d.items() if k_ in w} == w and all(v_ in ("False", "None") for v_ in extra_d.values()):
+            ctx.R.ok("FMT-12", f"{q}: documented defaults {w}" + (f" (further options, off by default: {sorted(extra_d)})" if extra_d else ""))
         else:
             ctx.R.fail("FMT-12", mod, f2, f"{q}: documented defaults are {w}, found {d}", construct=f"{q} defaults {d}")
 
